@@ -109,6 +109,13 @@ type Node struct {
 	QLog    *RecQueryLog
 	Stats   *RecStats
 
+	// FilterConf is the very *filtering.Config that filtering.New was given
+	// (and keeps as its own configuration).  Package home hands the same object
+	// to Filter.WriteDiskConfig at every configuration save; a harness that
+	// wants its saves to be faithful to that does the same.  Unused = a save
+	// into a separate object, as before.
+	FilterConf *filtering.Config
+
 	Modified atomic.Int64
 	seq      atomic.Uint64
 	udpConn  *net.UDPConn
@@ -221,7 +228,8 @@ func New(cfg *Config) (n *Node, err error) {
 	fc.Filters = append(fc.Filters, cfg.PersistedBlock...)
 	fc.WhitelistFilters = append(fc.WhitelistFilters, cfg.PersistedAllow...)
 	fcp := fc
-	n.Filter, err = filtering.New(&fcp, nil)
+	n.FilterConf = &fcp
+	n.Filter, err = filtering.New(n.FilterConf, nil)
 	if err != nil {
 		return nil, fmt.Errorf("harness: filtering.New: %w", err)
 	}
